@@ -78,6 +78,28 @@ func errClass(err error) string {
 	}
 }
 
+// blsTouch calls BLS entry points and throws the outcome away. In a build without cgo they panic (the
+// documented behaviour) and the panic is recovered; in the other builds they succeed. Either way nothing
+// they do may influence the non-BLS lines that follow, so the transcript interleaves such calls with
+// the ECDSA, hashing and PRG sections in every configuration.
+func blsTouch(r *rand.Rand) {
+	calls := []func(){
+		func() { _, _ = crypto.GeneratePrivateKey(crypto.BLSBLS12381, rb(r, 32+r.IntN(64))) },
+		func() { _, _ = crypto.DecodePrivateKey(crypto.BLSBLS12381, rb(r, 32)) },
+		func() { _, _ = crypto.DecodePublicKey(crypto.BLSBLS12381, rb(r, 96)) },
+		func() { _, _ = crypto.DecodePublicKeyCompressed(crypto.BLSBLS12381, rb(r, 96)) },
+		func() { _, _, _, _ = crypto.BLSThresholdKeyGen(3, 1, rb(r, 32)) },
+		func() { _, _ = crypto.AggregateBLSSignatures([]crypto.Signature{rb(r, 48)}) },
+	}
+	for k := 0; k < 2; k++ {
+		f := calls[r.IntN(len(calls))]
+		func() {
+			defer func() { _ = recover() }()
+			f()
+		}()
+	}
+}
+
 func (t *T) hashSection() {
 	r := t.rng("hash")
 	type alg struct {
@@ -132,6 +154,9 @@ func (t *T) hashSection() {
 		nk = 3000
 	}
 	for i := 0; i < nk; i++ {
+		if i%7 == 6 {
+			blsTouch(r)
+		}
 		key := rb(r, []int{16, 17, 162, 163, 164, 168, 331, 32 + r.IntN(300)}[i%8])
 		cust := rb(r, r.IntN(30))
 		size := []int{0, 1, 32, 128, 167, 168, 169, 1000}[r.IntN(8)]
@@ -161,6 +186,9 @@ func (t *T) prgSection() {
 	for i := 0; i < n; i++ {
 		seed := rb(r, 32)
 		cust := rb(r, r.IntN(13))
+		if i%5 == 4 {
+			blsTouch(r)
+		}
 		g, err := random.NewChacha20PRG(seed, cust)
 		if err != nil {
 			t.line("prg", "new", dg(seed), "error")
@@ -201,6 +229,9 @@ func (t *T) ecdsaSection() {
 	for _, alg := range []crypto.SigningAlgorithm{crypto.ECDSAP256, crypto.ECDSASecp256k1} {
 		for i := 0; i < n; i++ {
 			seed := rb(r, 32+r.IntN(100))
+			if i%2 == 1 {
+				blsTouch(r)
+			}
 			sk, err := crypto.GeneratePrivateKey(alg, seed)
 			if err != nil {
 				t.line("ecdsa", "keygen", dg(seed), errClass(err))
